@@ -79,7 +79,9 @@ impl Arr {
             Arr::Prefix { horizon, steps } => Box::new(Self::build_prefix(*horizon, steps)),
             Arr::Never => Box::new(arrival::Never {}),
             Arr::Recorded { inner, horizon, as_curve } => {
-                let src = inner.build_raw();
+                // (through the loop budget: `from_arrival_bound_until` collects the source's steps up to
+                // the horizon, which never ends if the source's steps stop increasing)
+                let src = Ticking(inner.build_raw());
                 let p = arrival::ArrivalCurvePrefix::from_arrival_bound_until(&src, d(*horizon));
                 if *as_curve {
                     Box::new(arrival::Curve::from(p))
@@ -89,21 +91,21 @@ impl Arr {
             }
             Arr::Propagated { inner, j } => match &**inner {
                 Arr::Periodic { t } => {
-                    Box::new(arrival::Propagated::with_jitter(&arrival::Periodic::new(d(*t)), d(*j)))
+                    Box::new(arrival::Propagated::with_jitter(&TickingT(arrival::Periodic::new(d(*t))), d(*j)))
                 }
                 Arr::Sporadic { t, j: j0 } => Box::new(arrival::Propagated::with_jitter(
-                    &arrival::Sporadic::new(d(*t), d(*j0)),
+                    &TickingT(arrival::Sporadic::new(d(*t), d(*j0))),
                     d(*j),
                 )),
                 Arr::Curve { dmin } => {
-                    Box::new(arrival::Propagated::with_jitter(&Self::build_curve(dmin), d(*j)))
+                    Box::new(arrival::Propagated::with_jitter(&TickingT(Self::build_curve(dmin)), d(*j)))
                 }
                 Arr::Extrap { dmin } => Box::new(arrival::Propagated::with_jitter(
-                    &arrival::ExtrapolatingCurve::new(Self::build_curve(dmin)),
+                    &TickingT(arrival::ExtrapolatingCurve::new(Self::build_curve(dmin))),
                     d(*j),
                 )),
                 Arr::Prefix { horizon, steps } => Box::new(arrival::Propagated::with_jitter(
-                    &Self::build_prefix(*horizon, steps),
+                    &TickingT(Self::build_prefix(*horizon, steps)),
                     d(*j),
                 )),
                 Arr::Never => Box::new(arrival::Propagated::with_jitter(&arrival::Never {}, d(*j))),
@@ -505,6 +507,11 @@ pub fn max_in_window(seq: &[u64], delta: u64) -> usize {
 /// `bursty` allows leading zeros (simultaneous events) and plateaus.
 pub fn gen_dmin(rng: &mut Rng, max_len: usize, scale: u64, bursty: bool) -> Vec<u64> {
     let len = rng.usize(1, max_len.max(1));
+    gen_dmin_len(rng, len, scale, bursty)
+}
+
+/// As `gen_dmin`, with exactly `len` entries.
+pub fn gen_dmin_len(rng: &mut Rng, len: usize, scale: u64, bursty: bool) -> Vec<u64> {
     let mut v: Vec<u64> = Vec::with_capacity(len);
     let mut cur = 0u64;
     for i in 0..len {
@@ -649,6 +656,37 @@ impl ArrGen {
     }
 }
 
+/// As `Ticking`, for a concrete (cloneable) model that is handed to a generic library type such as
+/// `Propagated<T>` or `ArrivalCurvePrefix::from_arrival_bound_until::<T>`: the library's own adaptors
+/// (`filter`, `take_while`, `collect`) around the inner `steps_iter` then pull through the loop budget.
+#[derive(Clone)]
+pub struct TickingT<T: ArrivalBound + Clone>(pub T);
+
+fn ticking_iter<'a>(it: Box<dyn Iterator<Item = Duration> + 'a>) -> Box<dyn Iterator<Item = Duration> + 'a> {
+    // the i-th item costs 1 + i/512 budget units: consumers that pull a few thousand steps are
+    // unaffected, a consumer that never stops runs out of budget after ~17 000 items — before the
+    // per-item work of caching iterators (which grows with i) turns the runaway loop into minutes
+    let mut i = 0u64;
+    Box::new(it.inspect(move |_| {
+        i += 1;
+        for _ in 0..(1 + i / 512) {
+            response_time_analysis::verif_hooks::tick("harness: item pulled from steps_iter");
+        }
+    }))
+}
+
+impl<T: ArrivalBound + Clone + 'static> ArrivalBound for TickingT<T> {
+    fn number_arrivals(&self, delta: Duration) -> usize {
+        self.0.number_arrivals(delta)
+    }
+    fn steps_iter<'a>(&'a self) -> Box<dyn Iterator<Item = Duration> + 'a> {
+        ticking_iter(self.0.steps_iter())
+    }
+    fn clone_with_jitter(&self, jitter: Duration) -> Box<dyn ArrivalBound> {
+        self.0.clone_with_jitter(jitter)
+    }
+}
+
 /// See `Arr::build`.
 pub struct Ticking(pub Box<dyn ArrivalBound>);
 
@@ -657,16 +695,7 @@ impl ArrivalBound for Ticking {
         self.0.number_arrivals(delta)
     }
     fn steps_iter<'a>(&'a self) -> Box<dyn Iterator<Item = Duration> + 'a> {
-        // the i-th item costs 1 + i/512 budget units: consumers that pull a few thousand steps are
-        // unaffected, a consumer that never stops runs out of budget after ~17 000 items — before the
-        // per-item work of caching iterators (which grows with i) turns the runaway loop into minutes
-        let mut i = 0u64;
-        Box::new(self.0.steps_iter().inspect(move |_| {
-            i += 1;
-            for _ in 0..(1 + i / 512) {
-                response_time_analysis::verif_hooks::tick("harness: item pulled from steps_iter");
-            }
-        }))
+        ticking_iter(self.0.steps_iter())
     }
     fn clone_with_jitter(&self, jitter: Duration) -> Box<dyn ArrivalBound> {
         Box::new(Ticking(self.0.clone_with_jitter(jitter)))
